@@ -66,7 +66,15 @@ def base_files():
     gen = elfgen.build(0x401000, [{"type": elfgen.PT_LOAD, "flags": 5, "vaddr": 0x401000, "data": code},
                                   {"type": elfgen.PT_LOAD, "flags": 6, "vaddr": 0x402000, "data": bytes(range(1, 33)), "memsz": 100}],
                        symbols=[("_start", 0x401000, 1), ("f", 0x401010, 1), (None, 0x401020, 1)])
-    files = {"gen": gen}
+    # a file whose 3rd-5th program headers are the non-LOAD kinds the loader acts on: PT_TLS over the data segment (its file
+    # range inside the file), PT_GNU_RELRO, PT_GNU_STACK - so that mutations of THEIR fields (alignment 0, sizes, addresses) are offered
+    tls = elfgen.build(0x401000, [{"type": elfgen.PT_LOAD, "flags": 5, "vaddr": 0x401000, "data": code},
+                                  {"type": elfgen.PT_LOAD, "flags": 6, "vaddr": 0x402000, "data": bytes(range(1, 33)), "memsz": 100},
+                                  {"type": elfgen.PT_TLS, "flags": 4, "vaddr": 0x402000, "data": b"", "offset": 0x1000, "filesz": 16, "memsz": 24, "align": 8},
+                                  {"type": 0x6474e552, "flags": 4, "vaddr": 0x402000, "data": b"", "offset": 0x1000, "filesz": 32, "memsz": 32, "align": 1},
+                                  {"type": elfgen.PT_GNU_STACK, "flags": 6, "vaddr": 0, "data": b"", "filesz": 0, "memsz": 0, "align": 16}],
+                       symbols=[("_start", 0x401000, 1)])
+    files = {"gen": gen, "tls": tls}
     hw = "/repo/testdata/hello_world.bin"
     if os.path.exists(hw):
         files["hello"] = open(hw, "rb").read()
